@@ -59,19 +59,19 @@ Definition C11_full_parametric_erasure : Prop :=
     passes_only x e T -> is_svar U = false -> lift (OR d0 U) t t ->
     let sealed := Th [(x, Th [("%v", t)] (SealT k l0 (Var "%v")))] e in
     let bare := Th [(x, t)] e in
-    lift (OR (fun _ => MkInt k (OR d0 U)) T) sealed bare
+    lift (OR (fun _ => MkInt k (OR d0 U) (fun _ _ => False)) T) sealed bare
     /\ (is_svar T = false ->
         (* converse; at a quantified type the sealed run stops at the seal without forcing its content,
            so the converse is only meaningful at the other types *)
         forall n r1, force cfg_real n sealed = r1 -> r1 <> OutOfFuel ->
-          exists m r2, force cfg_real m bare = r2 /\ OR (fun _ => MkInt k (OR d0 U)) T r1 r2).
+          exists m r2, force cfg_real m bare = r2 /\ OR (fun _ => MkInt k (OR d0 U) (fun _ _ => False)) T r1 r2).
 
 (* Proved: the direction "whatever the bare run produces, the sealed run produces a related outcome"
    (no spurious blame, same results), for every term accepted by the syntactic criterion. *)
 Theorem C11_parametric_erasure_partial :
   forall x e T k l0 U d0 t,
     passes_only x e T -> is_svar U = false -> lift (OR d0 U) t t ->
-    lift (OR (fun _ => MkInt k (OR d0 U)) T)
+    lift (OR (fun _ => MkInt k (OR d0 U) (fun _ _ => False)) T)
          (Th [(x, Th [("%v", t)] (SealT k l0 (Var "%v")))] e)
          (Th [(x, t)] e).
 Proof. exact parametric_erasure. Qed.
@@ -91,7 +91,7 @@ Proof. exact fundamental. Qed.
 
 Theorem C11_parametric_transparent :
   forall nv keys sg d0 T f p,
-    scoped nv T -> (forall i, is_svar (sg i) = false) -> has_ty [] f T ->
+    scoped nv T -> rows_ok sg T -> (forall i, is_svar (sg i) = false) -> has_ty [] f T ->
     lift (OR d0 (inst sg T))
          (Th p (Chk (foralls (var_keys keys nv) (sty_ctr keys T)) lbl0 f))
          (Th p f).
@@ -99,7 +99,7 @@ Proof. exact parametric_transparent. Qed.
 
 Theorem C11_parametric_same_result :
   forall nv keys sg a b f arg p,
-    scoped nv (SFun a b) -> (forall i, is_svar (sg i) = false) ->
+    scoped nv (SFun a b) -> rows_ok sg (SFun a b) -> (forall i, is_svar (sg i) = false) ->
     has_ty [] f (SFun a b) -> has_ty [] arg (inst sg a) -> is_base (inst sg b) = true ->
     forall n r, eval cfg_real n p (App f arg) = r -> r <> OutOfFuel ->
       exists m, eval cfg_real m p (App (Chk (foralls (var_keys keys nv) (sty_ctr keys (SFun a b))) lbl0 f) arg) = r.
@@ -107,7 +107,7 @@ Proof. exact parametric_same_result. Qed.
 
 Theorem C11_parametric_annotation_same_result2 :
   forall sg a1 a2 b f arg1 arg2 p,
-    scoped 2 (SFun a1 (SFun a2 b)) -> (forall i, is_svar (sg i) = false) ->
+    scoped 2 (SFun a1 (SFun a2 b)) -> norow (SFun a1 (SFun a2 b)) -> (forall i, is_svar (sg i) = false) ->
     has_ty [] f (SFun a1 (SFun a2 b)) -> has_ty [] arg1 (inst sg a1) -> has_ty [] arg2 (inst sg a2) ->
     is_base (inst sg b) = true ->
     forall n r, eval cfg_real n p (App (App f arg1) arg2) = r -> r <> OutOfFuel ->
@@ -124,13 +124,24 @@ Proof. exact export_same. Qed.
 (* in terms of what `nickel export` prints: `(f | forall a b. T) arg1 arg2` vs `f arg1 arg2` *)
 Theorem C11_parametric_annotation_same_export2 :
   forall sg a1 a2 b f arg1 arg2,
-    scoped 2 (SFun a1 (SFun a2 b)) -> (forall i, is_svar (sg i) = false) ->
+    scoped 2 (SFun a1 (SFun a2 b)) -> norow (SFun a1 (SFun a2 b)) -> (forall i, is_svar (sg i) = false) ->
     has_ty [] f (SFun a1 (SFun a2 b)) -> has_ty [] arg1 (inst sg a1) -> has_ty [] arg2 (inst sg a2) ->
     data_ty (inst sg b) ->
     forall n r, run_data cfg_real n (App (App f arg1) arg2) = r -> r <> OutOfFuel ->
       exists m, run_data cfg_real m
                   (App (App (Ann (TForall "a" KType (TForall "b" KType (sty_ty names2 (SFun a1 (SFun a2 b))))) f) arg1) arg2) = r.
 Proof. exact parametric_annotation_same_export2. Qed.
+
+(* one argument, any quantifier prefix, type AND record-row variables: the exported result is the same.
+   For a row-polymorphic signature this is the end-to-end form of tail_preserved: a function that only
+   passes the record around (returns it, projects listed fields) gets the sealed tail back intact. *)
+Theorem C11_parametric_same_export :
+  forall nv keys sg a b f arg,
+    scoped nv (SFun a b) -> rows_ok sg (SFun a b) -> (forall i, is_svar (sg i) = false) ->
+    has_ty [] f (SFun a b) -> has_ty [] arg (inst sg a) -> data_ty (inst sg b) ->
+    forall n r, run_data cfg_real n (App f arg) = r -> r <> OutOfFuel ->
+      exists m, run_data cfg_real m (App (Chk (foralls (var_keys keys nv) (sty_ctr keys (SFun a b))) lbl0 f) arg) = r.
+Proof. exact parametric_same_export. Qed.
 
 (* ---- T1: record-row tails *)
 Theorem C11_tail_guarded :
